@@ -22,7 +22,7 @@ ASSUMPTIONS = [
     "point masses are placed at the spanwise station of a structural node (the inverse-distance spreading of OAS otherwise leaks a 1e-7 share across the symmetry plane)",
     "coupled solvers tightened to rtol 1e-13 (user-level setting); OpenMDAO/NumPy/SciPy trusted",
 ]
-BOUND = {"quick": "nx<=3 (+ one planform with nx=4), half ny in {3}, aerostruct: tube+wingbox x 4 load options", "thorough": "nx<=4, half ny in {3,4}, all load-option combinations"}
+BOUND = {"quick": "nx<=3 (+ one planform with nx=4), half ny in {3} (+ production-size lattices 7x11, 5x9 wing+tail, 6x8 off-plane, left and right halves), aerostruct: tube+wingbox x 4 load options", "thorough": "nx<=4, half ny in {3,4}, all load-option combinations"}
 TOL_A = 1e-9
 TOL_S = 1e-7
 
@@ -58,6 +58,18 @@ def states(tier, seed):
             if sset != "wing_offplane" and (nx == 3 or tier == "thorough") and pf == "twdi":
                 # the same aircraft described by its RIGHT half (root node first)
                 st.append(dict(part="aero", side="right", sset=sset, pf=pf, nx=nx, ny=ny, alpha=al, visc=visc, wave=wave, M=M, comp=comp, ground=ground, sref=sref, fam=fam))
+    # production-size lattices (index arithmetic of the symmetric-image folding beyond nx = 4, half ny = 4)
+    for (sset, pf, nx, ny), (visc, wave, M, comp, ground, sref) in itertools.product(
+        [("wing", "twdi", 7, 11), ("wing_tail", "twdi", 5, 9), ("wing_offplane", "camber", 6, 8)],
+        [(True, True, 0.84, True, False, "wetted"), (True, False, 0.5, False, True, "projected"), (False, False, 0.5, False, False, "wetted")],
+    ):
+        if ground and sset == "wing_offplane":
+            continue
+        for side in [None, "right"] if sset != "wing_offplane" else [None]:
+            d = dict(part="aero", sset=sset, pf=pf, nx=nx, ny=ny, alpha=5.0, visc=visc, wave=wave, M=M, comp=comp, ground=ground, sref=sref, fam=fam)
+            if side:
+                d["side"] = side
+            st.append(d)
     # aerostructural
     opts = list(itertools.product([False, True], repeat=3))  # relief, fuel, point masses
     if tier == "quick":
